@@ -7,6 +7,9 @@ assert subprocess.run(["git", "-C", "/repo", "status", "--porcelain"], capture_o
 r = subprocess.run(["git", "-C", "/repo", "apply", diff], capture_output=True, text=True)
 if r.returncode != 0:
     print("PATCH DID NOT APPLY", r.stderr); sys.exit(3)
+import shutil, tempfile
+EVID_BACKUP = tempfile.mkdtemp(prefix='evid-', dir='/var/tmp')
+shutil.copytree('/verif/evidence', EVID_BACKUP + '/evidence')   # the committed evidence must describe the UNCHANGED tree: put it back afterwards
 try:
     for p in props:
         c = subprocess.run(["./check", p, "--tier", "quick"], cwd="/verif", capture_output=True, text=True)
@@ -17,3 +20,4 @@ try:
                 print("    ", l[:300])
 finally:
     subprocess.run(["git", "-C", "/repo", "checkout", "--", "."], check=True)
+    shutil.rmtree('/verif/evidence'); shutil.copytree(EVID_BACKUP + '/evidence', '/verif/evidence'); shutil.rmtree(EVID_BACKUP)
